@@ -213,7 +213,7 @@ def _parse_pair(out):
     return int(m.group(1)), [int(i) for i in idx]
 
 
-def coq_mismatches(rundir, module, runfn, cases, shard=300, maxbytes=250_000, timeout=600, extra_imports=()):
+def coq_mismatches(rundir, module, runfn, cases, shard=300, maxbytes=250_000, timeout=600, extra_imports=(), case_type='_'):
     """cases: list of (case_term_text, expected_python_string).  Returns (mismatch_indices, errors, nfiles)."""
     files, cur, cur_bytes, start = [], [], 0, 0
     shards = []
@@ -230,7 +230,7 @@ def coq_mismatches(rundir, module, runfn, cases, shard=300, maxbytes=250_000, ti
         src = 'From AHP Require Import Model.Base %s.\n' % module
         for imp in extra_imports:
             src += 'From AHP Require Import %s.\n' % imp
-        src += 'Definition cases := [\n' + ';\n'.join(items) + '\n].\n'
+        src += 'Definition cases : list (%s * string) := [\n' % case_type + ';\n'.join(items) + '\n].\n'
         src += 'Eval vm_compute in (length cases, mismatches %s cases).\n' % runfn
         f = rundir / ('Cases_%d.v' % k)
         f.write_text(src)
@@ -253,7 +253,7 @@ def coq_mismatches(rundir, module, runfn, cases, shard=300, maxbytes=250_000, ti
             out = p.stdout.read()
             pr = _parse_pair(out)
             if p.returncode != 0 or pr is None or pr[0] != n:
-                errors.append('%s: rc=%s %s' % (f.name, p.returncode, out[-1500:]))
+                errors.append('%s: rc=%s :: %s' % (f.name, p.returncode, (out[:600] + ' ... ' + out[-600:]) if len(out) > 1300 else out))
             else:
                 mism += [st + i for i in pr[1]]
         running = still
@@ -374,6 +374,7 @@ class Check:
     PARTIAL = []
     SHARD = 300
     CASE_TIMEOUT = 30
+    CASE_TYPE = '_'
 
     def __init__(self, tier, seed):
         self.tier, self.seed = tier, seed
@@ -473,7 +474,8 @@ def main_check(check_cls, argv):
     try:
         return _main(chk, prop, tier, args, rundir, t0)
     finally:
-        shutil.rmtree(rundir, ignore_errors=True)
+        if os.environ.get('AHP_KEEP') != '1':
+            shutil.rmtree(rundir, ignore_errors=True)
 
 
 def _main(chk, prop, tier, args, rundir, t0):
@@ -500,8 +502,11 @@ def _main(chk, prop, tier, args, rundir, t0):
         return 1 if what else 0
 
     # 1. build + gate + audit ---------------------------------------------------
+    oracle_only = os.environ.get('AHP_ORACLE_ONLY') == '1'   # development aid: implementation side only
+    if oracle_only:
+        args.no_build = True
     if not args.no_build:
-        tg = ['Properties/%s.vo' % prop]
+        tg = ['Properties/%s.vo' % prop] if (COQ / 'Properties' / ('%s.v' % prop)).exists() else []
         if chk.RUN_MODULE:
             tg.append(chk.RUN_MODULE.replace('.', '/') + '.vo')
         ok, blog = build(targets=tg)
@@ -511,7 +516,7 @@ def _main(chk, prop, tier, args, rundir, t0):
     if gate:
         problems.append(Problem('proof', 'source gate: ' + '; '.join(gate[:5])))
     thms, alog = ([], '')
-    if not problems:
+    if not problems and not oracle_only:
         thms, alog = audit(prop, rundir)
         for t in thms:
             if not t['ok']:
@@ -564,8 +569,8 @@ def _main(chk, prop, tier, args, rundir, t0):
     # 3. model side ----------------------------------------------------------------
     mism, errs, nfiles = [], [], 0
     build_ok = not any(p.kind == 'proof' and 'build' in p.what for p in problems)
-    if chk.RUN_MODULE and coq_cases and build_ok:
-        mism, errs, nfiles = coq_mismatches(rundir, chk.RUN_MODULE, chk.RUN_FN, coq_cases, shard=chk.SHARD)
+    if chk.RUN_MODULE and coq_cases and build_ok and not oracle_only:
+        mism, errs, nfiles = coq_mismatches(rundir, chk.RUN_MODULE, chk.RUN_FN, coq_cases, shard=chk.SHARD, case_type=chk.CASE_TYPE)
         for e in errs:
             problems.append(Problem('corr', 'correspondence file failed to evaluate', detail=e))
         for i in mism[:3]:
@@ -573,7 +578,7 @@ def _main(chk, prop, tier, args, rundir, t0):
 
             def still(c):
                 s = chk.run_impl(c)
-                m, e, _ = coq_mismatches(rundir, chk.RUN_MODULE, chk.RUN_FN, [(chk.coq_case(c), s)])
+                m, e, _ = coq_mismatches(rundir, chk.RUN_MODULE, chk.RUN_FN, [(chk.coq_case(c), s)], case_type=chk.CASE_TYPE)
                 return bool(m)
             small = chk.shrink(case, still, limit=40 if tier == 'quick' else 150)
             isnap = chk.run_impl(small)
